@@ -386,6 +386,83 @@ def supervisor(exe):
     expect("SUP a grab answer that contradicts the replayed environment -> ENV clause", run(v5, "grab"), ["ENV-grab-answer"])
 
 
+def fleet(exe):
+    """the static fleet: traces recorded from the real do_remapping_loop_all_devices / do_remapping_loop_multiple_devices, one recorded call dropped / inserted / changed"""
+    ok, why = e3.namespaces_available()
+    if not ok:
+        log("SKIP fleet controls: no mount namespace (%s)" % why)
+        return
+    wd = workdir("selftest-fl")
+    nodes = {u[0]: "/dev/input/event%d" % u[5] for u in e3.FL_UNIVERSE}
+    cases = [{"id": "fl-all", "mode": "all", "present": ["k0", "k1", "k2"], "bad": [], "ends": [["k2", "err"], ["k0", "ok"], ["k1", "ok"]], "given": []},
+             {"id": "fl-files", "mode": "files", "present": ["k0", "k1", "k2"], "bad": [], "ends": [["k1", "ok"], ["k0", "ok"]], "given": ["k0", "k1"],
+              "files": [nodes["k0"], nodes["k1"], nodes["x"], nodes["m"], nodes["v"]]},
+             {"id": "fl-bad", "mode": "all", "present": ["k0", "k1"], "bad": ["k1"], "ends": [], "given": []}]
+    p, tp = e3.fl_record(exe, os.path.join(wd, "ns"), cases)
+    p.communicate(timeout=120)
+    base = read_ndjson(tp)
+    with open(os.path.join(wd, "FLT.tla"), "w") as f:
+        f.write("---- MODULE FLT ----\nEXTENDS FleetTrace\n====\n")
+    with open(os.path.join(wd, "FLT.cfg"), "w") as f:
+        f.write("SPECIFICATION Spec\nPOSTCONDITION Accepted\nCHECK_DEADLOCK FALSE\n")
+
+    def run(mutate, label):
+        rows = copy.deepcopy(base)
+        if mutate:
+            rows = mutate(rows) or rows
+        q = os.path.join(wd, "t_%s.ndjson" % label)
+        write_ndjson(q, rows)
+        r = TlcRun(wd, "FLT.tla", "FLT.cfg", env={"TRACE": q}, name="flt_" + label, deque=True).run()
+        if r.other_error():
+            return {"TOOL-ERROR: " + r.other_error()[:200]}
+        out = set()
+        for l in r.printed("FL-BAD"):
+            out |= set(parse_tla_value(l)[2])
+        acc = parse_tla_value(r.printed("FL-ACCEPTED")[0])
+        if acc[1] != acc[2]:
+            out.add("NOT-CONSUMED")
+        return out
+    expect("FLEET the real fleet's traces as recorded: accepted by FleetTrace", run(None, "clean"), [])
+
+    def idx(rows, pred, nth=0):
+        return [i for i, r in enumerate(rows) if pred(r)][nth]
+
+    def f1(rows):   # the open of the third keyboard disappears from the --all-keyboards run
+        i = idx(rows, lambda r: r.get("c") == "kopen" and r.get("d") == "k2")
+        j = idx(rows, lambda r: r.get("c") == "settled")
+        del rows[i:j]
+    expect("FLEET the open of a listed keyboard removed -> C16 where devices are opened", run(f1, "noopen"), ["C16-fleet-selected-keyboard-not-opened"])
+
+    def f2(rows):   # the excluded keyboard's node is opened in the --dev-file run
+        i = idx(rows, lambda r: r.get("c") == "reset" and r.get("id") == "fl-files")
+        j = i + idx(rows[i:], lambda r: r.get("c") == "kopen")
+        rows.insert(j, {"c": "kopen", "d": nodes["x"], "res": "foreign", "flags": 2048, "bysup": True})
+    expect("FLEET an open of the excluded keyboard inserted -> C16 where devices are opened", run(f2, "excluded"), ["C16-fleet-device-outside-the-selected-keyboards-opened", "FL-open-after-a-failed-open"])
+
+    def f3(rows):   # a keyboard that was not given with --dev-file is opened
+        i = idx(rows, lambda r: r.get("c") == "reset" and r.get("id") == "fl-files")
+        j = i + idx(rows[i:], lambda r: r.get("c") == "settled")
+        rows.insert(j, {"c": "kopen", "d": "k2", "res": "ok", "flags": 2048, "bysup": True})
+    expect("FLEET an open of a keyboard that was not given inserted -> C16 where devices are opened", run(f3, "notgiven"), ["C16-fleet-device-outside-the-selected-keyboards-opened"])
+
+    def f4(rows):   # the function is seen to return right after the later listed worker failed, while the first listed one still runs
+        i = idx(rows, lambda r: r.get("c") == "wend" and r.get("d") == "k2")
+        k = idx(rows, lambda r: r.get("c") == "returned")
+        r = rows.pop(k)
+        rows.insert(i + 1, r)
+    expect("FLEET the return moved in front of the earlier workers' ends -> fleet clause", run(f4, "early"), ["FL-returned-while-an-earlier-listed-worker-was-still-running"])
+
+    def f5(rows):   # the worker's error is not returned
+        i = idx(rows, lambda r: r.get("c") == "ret")
+        rows[i]["res"] = "ok"
+    expect("FLEET Ok returned although a worker failed -> fleet clause", run(f5, "okret"), ["FL-worker-error-not-returned"])
+
+    def f6(rows):   # the recorder's own answer is changed: the open of the keyboard that cannot be opened succeeds
+        i = idx(rows, lambda r: r.get("c") == "kopen" and r.get("res") == "eacces")
+        rows[i]["res"] = "ok"
+    expect("FLEET an open answer that contradicts the environment -> ENV clause", run(f6, "openans"), ["ENV-open-answer", "FL-open-failure-not-reported"])
+
+
 def main():
     exe = build_harness()
     mapper_table(exe)
@@ -393,6 +470,7 @@ def main():
     sys_level(exe)
     case_judges(exe)
     supervisor(exe)
+    fleet(exe)
     bad = [o for o in OUT if not o[1]]
     log("selftest: %d controls, %d failed" % (len(OUT), len(bad)))
     return 1 if bad else 0
